@@ -186,6 +186,57 @@ class Check:
             return None, log
         return out, log
 
+    CONCURRENT_FILES = [
+        "queue/concurrent_linked_queue.go", "queue/concurrent_array_blocking_queue.go",
+        "queue/concurrent_linked_blocking_queue.go", "queue/delay_queue.go",
+        "queue/concurrent_priority_queue.go", "list/concurrent_list.go",
+        "list/copy_on_write_array_list.go", "syncx/cond.go", "syncx/map.go", "syncx/limit_pool.go",
+        "syncx/segment_key_lock.go", "pool/task_pool.go", "retry/retry.go", "retry/exponential.go",
+        "retry/fixed_internal.go"]
+
+    def instrument(self, files=None):
+        """Insert yield points into copies of /repo's CURRENT concurrent files (tools/instrument);
+        returns (overlay dict, labels list). Nothing is written into /repo."""
+        files = files or self.CONCURRENT_FILES
+        tool = os.path.join(VERIF, "tools/instrument/instrument")
+        src = os.path.join(VERIF, "tools/instrument/main.go")
+        if not os.path.exists(tool) or os.path.getmtime(tool) < os.path.getmtime(src):
+            rc, out = sh(["go", "build", "-o", tool, "."], cwd=os.path.dirname(tool), env=GOENV)
+            if rc != 0:
+                raise RuntimeError("instrumenter build failed: " + out)
+        d = os.path.join(self.tmp, "inst")
+        os.makedirs(d, exist_ok=True)
+        rc, out = sh([tool, "-repo", REPO, "-out", d] + files)
+        if rc != 0:
+            return None, out
+        ov = json.load(open(os.path.join(d, "overlay.json")))["Replace"]
+        labels = json.load(open(os.path.join(d, "labels.json")))
+        return ov, labels
+
+    def lockstep(self, binary, model, args, timeout=1800):
+        """Run `modelrun <model> <args>` (the master) against `h lockstep` connected by two pipes.
+        The model writes its report to a file whose path it receives as the last argument."""
+        report = os.path.join(self.tmp, "lockstep_%s.txt" % model)
+        m2g_r, m2g_w = os.pipe()
+        g2m_r, g2m_w = os.pipe()
+        g = subprocess.Popen([binary, "lockstep"], stdin=m2g_r, stdout=g2m_w, stderr=subprocess.PIPE, env=GOENV)
+        m = subprocess.Popen([MODELRUN, model] + [str(a) for a in args] + [report], stdin=g2m_r, stdout=m2g_w,
+                             stderr=subprocess.PIPE)
+        for fd in (m2g_r, m2g_w, g2m_r, g2m_w):
+            os.close(fd)
+        try:
+            _, merr = m.communicate(timeout=timeout)
+        except subprocess.TimeoutExpired:
+            m.kill()
+            merr = b"model timeout"
+        try:
+            g.wait(timeout=10)
+        except subprocess.TimeoutExpired:
+            g.kill()
+        gerr = g.stderr.read() if g.stderr else b""
+        txt = open(report).read() if os.path.exists(report) else ""
+        return m.returncode, txt, (merr or b"").decode(errors="replace")[-3000:], gerr.decode(errors="replace")[-3000:]
+
     def run_impl(self, binary, args, cases_text, timeout=1800, env=None):
         e = dict(GOENV)
         if env:
